@@ -73,7 +73,7 @@ def plan(tier, seed):
 
 def required(tier):
     return {"sum_to_one_cells": 300, "pmf_checked": 50000, "conditional_checked": 50000, "assemble_vs_call": 2000,
-            "exact_fraction_checked": 2000, "zero_freq_cells": 20, "high_ploidy_cells": 20,
+            "exact_fraction_checked": 2000, "zero_freq_cells": 20, "high_ploidy_cells": 20, "prior_order_independence_checked": 50000,
             "prog_datasets": 12, "prog_gp_vectors_checked": 80, "prog_datasets_equal_ploidy_unequal_inbreeding": 6}
 
 
@@ -131,6 +131,23 @@ def run_cell(ploidy, na, rng, col, K, spec_name, tier="quick"):
             for i in range(len(gs)):
                 lps[i] = K["call_prior"](arr[i], na, F, f)
             col.count("pmf_checked", len(gs))
+            # the prior is a function of the genotype as a MULTISET: the samplers hand it arrays in arbitrary order (an MH
+            # proposal substitutes one allele in place), the enumerations hand it sorted ones
+            if ploidy >= 2:
+                sel = range(len(gs)) if len(gs) <= 200 else [int(x) for x in rng.integers(0, len(gs), size=120)]
+                nbo = 0
+                for i in sel:
+                    perm = rng.permutation(ploidy)
+                    if ploidy >= 3 and rng.random() < 0.5:
+                        perm = perm[::-1] if list(perm) == sorted(perm) else perm
+                    got_p = float(K["call_prior"](np.ascontiguousarray(arr[i][perm]), na, F, f))
+                    col.count("prior_order_independence_checked")
+                    same = (got_p == lps[i]) if (math.isinf(got_p) or math.isinf(lps[i])) else abs(got_p - lps[i]) <= 1e-9 * max(1.0, abs(lps[i]))
+                    if not same and nbo < 2:
+                        nbo += 1
+                        col.violation("prior-depends-on-allele-order", "call prior of %s = %r but of the same genotype stored as %s = %r (ploidy %d alleles %d F %g freq %s)"
+                                      % (gs[i] if ploidy <= 12 else "genotype #%d" % i, float(lps[i]), arr[i][perm].tolist() if ploidy <= 12 else "a permutation", got_p, ploidy, na, F, fname),
+                                      {"kind": "cell", **cell})
             tot = math.fsum(math.exp(x) for x in lps if x != -math.inf)
             col.count("sum_to_one_cells")
             col.maxv("max_sum_error", abs(tot - 1))
